@@ -20,7 +20,7 @@ from egsim.seams import InjectedFault
 from egsim.props.c17 import ARG_POOL, decode_arg
 from edgegraph.structure import singleton
 
-CLASS_NAMES = ["T", "T1", "T2", "S", "F", "Z", "D", "P", "P1"]
+CLASS_NAMES = ["T", "T1", "T2", "S", "F", "Z", "D", "P", "P1", "R"]
 
 
 def make_classes(hook=None):
@@ -73,7 +73,13 @@ def make_classes(hook=None):
     holder["P"] = P
     P1 = M("P1", (P,), body("P1"))
     holder["P1"] = P1
-    return {"T": T, "T1": T1, "T2": T2, "S": S, "F": F, "Z": Z, "D": D, "P": P, "P1": P1}
+    # a class that keeps tables of its own under names a library might also pick
+    R = M(
+        "R",
+        (object,),
+        body("R", _instances={}, instances={}, _instance=None, _registry={}, _singleton_instances={}),
+    )
+    return {"T": T, "T1": T1, "T2": T2, "S": S, "F": F, "Z": Z, "D": D, "P": P, "P1": P1, "R": R}
 
 
 class St:
